@@ -205,7 +205,7 @@ func genSets(t *rapid.T, skip bool) [][]JWK {
 	return sets
 }
 
-var failKinds = []string{"500", "503json", "404", "500keys", "badjson", "wrongtype", "keysobject", "html", "neterr", "bodyerr", "null"}
+var failKinds = []string{"500", "503json", "404", "500keys", "badjson", "wrongtype", "keysobject", "html", "neterr", "bodyerr", "null", "204", "200empty", "200space", "201keys"}
 var zeroKinds = []string{"nokeys", "empty"}
 
 func genDoc(t *rapid.T, nsets, curSet int, first bool) Doc {
